@@ -7,7 +7,10 @@ ID = "C20"
 HMODULE = "H_C20"
 FUNCTIONAL = True  # the property states output == formula; a disagreement is a failing input
 RULE = ("random Linear layers (1-5 inputs, 1-3 units, every subset of lower/upper input bounds, bias on/off, "
-        "dyadic kernels; half of them sign-feasible for their monotonicities) evaluated on a base point drawn "
+"dyadic kernels; half of them sign-feasible for their monotonicities; input_min / input_max given as list, "
+        "tuple, and with 'none' / 'None' / 'NONE' strings in place of None; a quarter of the layers with a SCALAR "
+        "monotonicities argument 'increasing' / 1 / -1 / 'decreasing' / 'none' / 0, which Linear.__init__ broadcasts "
+        "to every input) evaluated on a base point drawn "
         "inside/on/outside the bounds plus points moved along one constrained input; the Coq model evaluates "
         "the same points. A third of the cases are CONSTRAINED layers: random monotonicities, acyclic "
         "monotonic/range dominance graphs, bounds, normalization none/1/2 (a share all-increasing with order 1), "
@@ -25,7 +28,35 @@ TRUSTED = ["model: Model/LinearEval.v + Model/LinearLayer.v (hand-written from l
 LIMITS = ["float rounding of the matmul/reduce_sum and of the projection is outside the model (tolerance 1e-9)",
           "weighted average: a numerically-zero projected column (L1 norm < 1e-8) is outside the guarantee "
           "(guard of C20_projected_weighted_average, refuted witness C20_projected_weighted_average_zero_refuted, "
-          "known finding D32); such columns are generated and compared with the model but not held to the range"]
+          "known finding D32); such columns are generated and compared with the model but not held to the range",
+          "normalization_order is modelled for None, 1 and 2 only; the code passes any other value (3, inf, 0.5, "
+          "'euclidean', 0, ...) to tf.norm(ord=...) while the model treats every order other than 1 as the L2 norm, "
+          "so other orders are not generated and nothing is claimed about them",
+          "dominance cycles (ValueError from the kernel constraint) are exercised on LinearConstraints in C06, not "
+          "through the layer"]
+
+
+BOUND_FORMS = ["list", "list", "list", "tuple", "str", "str", "tuple_str"]
+# a single monotonicity (not a list/tuple) is broadcast to every input by Linear.__init__
+SCALAR_MONOS = [("increasing", 1), (1, 1), (-1, -1), ("decreasing", -1), ("none", 0), (0, 0)]
+
+
+def bounds_arg(vals, form, present):
+  """The input_min / input_max argument in one of its accepted spellings: a list (None when no bound is set), a
+  tuple, a list/tuple with 'none' strings (any capitalisation) in place of None."""
+  if form == "list":
+    return list(vals) if present else None
+  spell = ["none", "None", "NONE"]
+  if form in ("str", "tuple_str"):
+    vals = [spell[i % 3] if v is None else v for i, v in enumerate(vals)]
+  return tuple(vals) if form.startswith("tuple") else list(vals)
+
+
+def monos_arg(d):
+  """The monotonicities argument: the scalar when the desc has one, else the list (ints)."""
+  if d.get("monos_scalar") is not None:
+    return d["monos_scalar"][0]
+  return d["monos"]
 
 
 def gen_descs(ctx):
@@ -35,6 +66,10 @@ def gen_descs(ctx):
     n = rng.randint(1, 5)
     units = rng.choice([1, 1, 2, 3])
     monos = [rng.choice([-1, 0, 1]) for _ in range(n)]
+    monos_scalar = None
+    if rng.random() < 0.25:
+      monos_scalar = list(rng.choice(SCALAR_MONOS))
+      monos = [monos_scalar[1]] * n
     lo, hi = [], []
     mode = rng.choice(["none", "mixed", "mixed", "all"])
     for _ in range(n):
@@ -73,7 +108,8 @@ def gen_descs(ctx):
       for r in p:
         r[i] += d
       pts.append(p)
-    out.append(dict(n=n, units=units, monos=monos, lo=lo, hi=hi, K=K, bias=bias, pts=pts, feasible=feasible))
+    out.append(dict(n=n, units=units, monos=monos, lo=lo, hi=hi, K=K, bias=bias, pts=pts, feasible=feasible,
+                    monos_scalar=monos_scalar, lo_form=rng.choice(BOUND_FORMS), hi_form=rng.choice(BOUND_FORMS)))
   for _ in range(ctx.n(120, 2000)):
     out.append(gen_constrained(rng))
   return out
@@ -100,6 +136,10 @@ def gen_constrained(rng):
   units = rng.choice([1, 1, 2, 3])
   wavg = rng.random() < 0.3
   monos = [1] * n if wavg else [rng.choice([-1, 0, 1, 1]) for _ in range(n)]
+  monos_scalar = None
+  if rng.random() < 0.25:
+    monos_scalar = list(rng.choice(SCALAR_MONOS[:2] if wavg else SCALAR_MONOS))
+    monos = [monos_scalar[1]] * n
   inc = [i for i in range(n) if monos[i] == 1]
   dec = [i for i in range(n) if monos[i] == -1]
   mode = rng.choice(["plain", "mdom", "rdom", "both", "mdom", "rdom"])
@@ -196,7 +236,19 @@ def gen_constrained(rng):
                        dl=moved(dom, lambda v: lo[dom]), dh=moved(dom, lambda v: hi[dom]),
                        wl=moved(weak, lambda v: lo[weak]), wh=moved(weak, lambda v: hi[weak])))
   return dict(kind="proj", n=n, units=units, monos=monos, mdom=mdom, rdom=rdom, lo=lo, hi=hi, norm=norm,
-              W=W, wclass=wclass, bias=bias, pts=pts, probes=probes, wavg=wavg)
+              W=W, wclass=wclass, bias=bias, pts=pts, probes=probes, wavg=wavg, monos_scalar=monos_scalar,
+              lo_form=rng.choice(BOUND_FORMS), hi_form=rng.choice(BOUND_FORMS))
+
+
+def form_class(d):
+  """Histogram suffix: M<scalar> for a scalar monotonicities argument, Bt / Bs / Bts for tuple / 'none'-string bounds."""
+  forms = set([d.get("lo_form", "list"), d.get("hi_form", "list")])
+  out = ""
+  if d.get("monos_scalar") is not None:
+    out += "_M%s" % (d["monos_scalar"][0],)
+  if forms != set(["list"]):
+    out += "_B" + ("t" if forms & set(["tuple", "tuple_str"]) else "") + ("s" if forms & set(["str", "tuple_str"]) else "")
+  return out
 
 
 def _clip(v, l, h):
@@ -211,10 +263,11 @@ def eval_constrained(tf, tfl, d):
   any_lo = any(v is not None for v in d["lo"])
   any_hi = any(v is not None for v in d["hi"])
   layer = tfl.layers.Linear(
-      num_input_dims=n, units=units, monotonicities=d["monos"],
+      num_input_dims=n, units=units, monotonicities=monos_arg(d),
       monotonic_dominances=[tuple(p) for p in d["mdom"]] or None,
       range_dominances=[tuple(p) for p in d["rdom"]] or None,
-      input_min=d["lo"] if any_lo else None, input_max=d["hi"] if any_hi else None,
+      input_min=bounds_arg(d["lo"], d.get("lo_form", "list"), any_lo),
+      input_max=bounds_arg(d["hi"], d.get("hi_form", "list"), any_hi),
       use_bias=d["bias"] is not None, normalization_order=d["norm"], dtype="float64")
   layer.build((None, n) if units == 1 else (None, units, n))
   layer.kernel.assign(np.array(d["W"], dtype=np.float64))
@@ -284,9 +337,10 @@ def eval_constrained(tf, tfl, d):
       clist([copt(v) for v in d["lo"]]), clist([copt(v) for v in d["hi"]]), cnat(d["norm"] or 0))
   coq = "mkP %s %s %s %s %s %s %s" % (cfg, cnat(units), cqm(d["W"]), copt(d["bias"], cql),
                                       clist([cqm(p) for p in pts]), cqm(kern), cqm(outs))
-  klass = "proj_u%d_%s%s%s%s_%s%s" % (units, "m" if d["mdom"] else "", "r" if d["rdom"] else "",
-                                      "n%d" % d["norm"] if d["norm"] else "", "_wavg" if d["wavg"] else "",
-                                      "+".join(sorted(checked)) or "none", "_zerocol" if zero_col else "")
+  klass = "proj_u%d_%s%s%s%s_%s%s%s" % (units, "m" if d["mdom"] else "", "r" if d["rdom"] else "",
+                                        "n%d" % d["norm"] if d["norm"] else "", "_wavg" if d["wavg"] else "",
+                                        "+".join(sorted(checked)) or "none", "_zerocol" if zero_col else "",
+                                        form_class(d))
   return Case(d, coq=coq, pred_fail=fail, nontrivial=True, klass=klass,
               info={"impl_outputs": outs, "impl_constrained_kernel": kern})
 
@@ -295,43 +349,54 @@ def eval_cases(ctx, descs):
   tf, tfl = tfimpl.tfl()
   cases = []
   for d in descs:
-    if d.get("kind") == "proj":
-      cases.append(eval_constrained(tf, tfl, d))
-      continue
-    n, units = d["n"], d["units"]
-    any_lo = any(v is not None for v in d["lo"])
-    any_hi = any(v is not None for v in d["hi"])
-    layer = tfl.layers.Linear(
-        num_input_dims=n, units=units, monotonicities=d["monos"],
-        input_min=d["lo"] if any_lo else None, input_max=d["hi"] if any_hi else None,
-        use_bias=d["bias"] is not None, dtype="float64")
-    layer.build((None, n) if units == 1 else (None, units, n))
-    layer.kernel.assign(np.array(d["K"], dtype=np.float64))
-    if d["bias"] is not None:
-      layer.bias.assign(np.float64(d["bias"][0]) if units == 1 else np.array(d["bias"], dtype=np.float64))
-    x = np.array(d["pts"], dtype=np.float64)  # (batch, units, n)
-    if units == 1:
-      x = x[:, 0, :]
-    y = layer(tf.constant(x)).numpy()  # (batch, units)
-    outs = [[float(v) for v in row] for row in y]
-    # property predicate on the implementation: monotone along the moved input
-    fail = None
-    if d["feasible"]:
-      base = d["pts"][0]
-      for p, o in zip(d["pts"][1:], outs[1:]):
-        i = [k for k in range(n) if p[0][k] != base[0][k]][0]
-        for u in range(units):
-          diff = o[u] - outs[0][u]
-          if d["monos"][i] == 1 and diff < -1e-9 or d["monos"][i] == -1 and diff > 1e-9:
-            fail = "output of unit %d not monotone in input %d (monotonicity %d): %r -> %r" % (
-                u, i, d["monos"][i], outs[0][u], o[u])
-    bs = clist(["(%s, %s)" % (copt(l), copt(h)) for l, h in zip(d["lo"], d["hi"])])
-    bias = d["bias"] if d["bias"] is not None else [0.0] * units
-    coq = "mk %s %s %s %s %s %s" % (cnat(units), cqm(d["K"]), cql(bias), bs,
-                                     clist([cqm(p) for p in d["pts"]]), cqm(outs))
-    clips = any((l is not None and r[i] < l) or (h is not None and r[i] > h)
-                for p in d["pts"] for r in p for i, (l, h) in enumerate(zip(d["lo"], d["hi"])))
-    klass = "n%d_u%d_%s%s" % (min(n, 3), units, "clip" if clips else "noclip", "" if d["bias"] is not None else "_nobias")
-    cases.append(Case(d, coq=coq, pred_fail=fail, nontrivial=(n >= 2 or clips), klass=klass,
-                      info={"impl_outputs": outs}))
+    try:
+      cases.append(eval_one(tf, tfl, d))
+    except (ValueError, TypeError, tf.errors.OpError) as e:
+      # every generated configuration and input is valid: an exception is a failing input
+      cases.append(Case(d, coq=None, klass="raised", nontrivial=True,
+                        pred_fail="building or calling the layer raised %s on a valid configuration: %s" % (
+                            type(e).__name__, " ".join(str(e).split())[:300])))
   return cases
+
+
+def eval_one(tf, tfl, d):
+  if d.get("kind") == "proj":
+    return eval_constrained(tf, tfl, d)
+  n, units = d["n"], d["units"]
+  any_lo = any(v is not None for v in d["lo"])
+  any_hi = any(v is not None for v in d["hi"])
+  layer = tfl.layers.Linear(
+      num_input_dims=n, units=units, monotonicities=monos_arg(d),
+      input_min=bounds_arg(d["lo"], d.get("lo_form", "list"), any_lo),
+      input_max=bounds_arg(d["hi"], d.get("hi_form", "list"), any_hi),
+      use_bias=d["bias"] is not None, dtype="float64")
+  layer.build((None, n) if units == 1 else (None, units, n))
+  layer.kernel.assign(np.array(d["K"], dtype=np.float64))
+  if d["bias"] is not None:
+    layer.bias.assign(np.float64(d["bias"][0]) if units == 1 else np.array(d["bias"], dtype=np.float64))
+  x = np.array(d["pts"], dtype=np.float64)  # (batch, units, n)
+  if units == 1:
+    x = x[:, 0, :]
+  y = layer(tf.constant(x)).numpy()  # (batch, units)
+  outs = [[float(v) for v in row] for row in y]
+  # property predicate on the implementation: monotone along the moved input
+  fail = None
+  if d["feasible"]:
+    base = d["pts"][0]
+    for p, o in zip(d["pts"][1:], outs[1:]):
+      i = [k for k in range(n) if p[0][k] != base[0][k]][0]
+      for u in range(units):
+        diff = o[u] - outs[0][u]
+        if d["monos"][i] == 1 and diff < -1e-9 or d["monos"][i] == -1 and diff > 1e-9:
+          fail = "output of unit %d not monotone in input %d (monotonicity %d): %r -> %r" % (
+              u, i, d["monos"][i], outs[0][u], o[u])
+  bs = clist(["(%s, %s)" % (copt(l), copt(h)) for l, h in zip(d["lo"], d["hi"])])
+  bias = d["bias"] if d["bias"] is not None else [0.0] * units
+  coq = "mk %s %s %s %s %s %s" % (cnat(units), cqm(d["K"]), cql(bias), bs,
+                                   clist([cqm(p) for p in d["pts"]]), cqm(outs))
+  clips = any((l is not None and r[i] < l) or (h is not None and r[i] > h)
+              for p in d["pts"] for r in p for i, (l, h) in enumerate(zip(d["lo"], d["hi"])))
+  klass = "n%d_u%d_%s%s%s" % (min(n, 3), units, "clip" if clips else "noclip",
+                              "" if d["bias"] is not None else "_nobias", form_class(d))
+  return Case(d, coq=coq, pred_fail=fail, nontrivial=(n >= 2 or clips), klass=klass,
+              info={"impl_outputs": outs})
